@@ -68,6 +68,7 @@ ValueTable ==
   @@ "\"probe.test/fx\".Holder.Field" :> [kind |-> "global", id |-> 2] @@ "\"probe.test/fx\".Var" :> [kind |-> "global", id |-> 1]
   @@ "&\"probe.test/fx\".S{}" :> [kind |-> "newptr", id |-> 0] @@ "\".\".S{}" :> [kind |-> "newval", id |-> 0]
   @@ "&\".\".S{}" :> [kind |-> "newptr", id |-> 0] @@ "probe.test/fx.Var" :> [kind |-> "global", id |-> 1]
+  @@ "*fx.Var" :> [kind |-> "deref", id |-> 1] @@ "*Var" :> [kind |-> "deref", id |-> 3]
   @@ "&fx.S{}" :> [kind |-> "newptr", id |-> 0] @@ "&S{}" :> [kind |-> "newptr", id |-> 0]
   @@ "fx.S{}" :> [kind |-> "newval", id |-> 0] @@ "S{}" :> [kind |-> "newval", id |-> 0] )
 TypeTable ==          \* zero value of a type-only service
@@ -154,6 +155,7 @@ ResolveValue(st, expr) ==
   CASE e.kind = "global" -> Ok(VObj(e.id), st)
     [] e.kind = "newptr" -> Ok(VObj(NewId(st)), Alloc(st, Body("", <<>>)))
     [] e.kind = "newval" -> Ok(VObjVal(Body("", <<>>)), st)
+    [] e.kind = "deref"  -> Ok(VObjVal(st.heap[e.id]), st)          \* *Var: a copy of what the package-level pointer refers to
 
 ResolveArg(st, a) ==
   CASE a.k \in {"int", "uint64", "float", "bool"} -> Ok(VLit(GoType(a.k), a.v), st)
